@@ -22,7 +22,7 @@ def run(i):
     rc = re.search(r"MUTRUN: %s rc=(\d+)" % p, r.stdout)
     return i, (int(rc.group(1)) if rc else -1), keys if not broken else ["BROKEN"]
 rows = []
-with cf.ThreadPoolExecutor(max_workers=6) as ex:
+with cf.ThreadPoolExecutor(max_workers=8) as ex:
     for i, rc, keys in ex.map(run, ids):
         d = os.path.join(V, "seeded", i)
         meta = json.load(open(os.path.join(d, "meta.json")))
